@@ -3,7 +3,7 @@
 (* statement-level decorations).                                                *)
 EXTENDS Source, Json, IOUtils
 CONSTANTS MaxCalls,
-          Mode      \* "wide": all decorations; "line": only the calls vary (operator, parameter, none/dot break),
+          Mode      \* "wide" / "rand": all decorations (rand: also split chains / short receivers); "line": only the calls vary (operator, parameter, none/dot break),
                     \*   exhaustively -- chains that share physical lines with interleaved operator names
 VARIABLES lay, done
 vars == <<lay, done>>
@@ -22,7 +22,8 @@ Finish == /\ ~done /\ Len(lay.calls) >= 1
                 kd \in (IF Mode = "line" THEN {"lambda"} ELSE {"lambda", "def", "var", "wrapped"}),
                 \* split = k > 0: calls 1..k and k+1.. are two separate chains in one statement, second(a.Op(..), b.Op(..));
                 \* recv = "short": the receivers are one-letter variables (a, b)
-                sp \in (IF Len(lay.calls) >= 2 THEN {0, 1} ELSE {0}), rc \in {"ds", "short"} :
+                sp \in (IF Len(lay.calls) >= 2 /\ Mode # "wide" THEN {0, 1} ELSE {0}),
+                rc \in (IF Mode # "wide" THEN {"ds", "short"} ELSE {"ds"}) :     \* ("wide" = exhaustive over the decorations)
                 /\ (sp > 0 => ex = "none")
                 /\ lay' = [lay EXCEPT !.wrap = w, !.extra = ex, !.pre = pr, !.kind = kd, !.split = sp, !.recv = rc]
           /\ done' = TRUE
